@@ -2960,14 +2960,14 @@ impl Connection {
                     }
 
                     use crate::cid_queue::InsertError;
+                    /// Ensure `pending_retired` cannot grow without bound. Limit is
+                    /// somewhat arbitrary but very permissive.
+                    const MAX_PENDING_RETIRED_CIDS: u64 = CidQueue::LEN as u64 * 10;
                     match self.rem_cids.insert(frame) {
                         Ok(None) => {}
                         Ok(Some((retired, reset_token))) => {
                             let pending_retired =
                                 &mut self.spaces[SpaceId::Data].pending.retire_cids;
-                            /// Ensure `pending_retired` cannot grow without bound. Limit is
-                            /// somewhat arbitrary but very permissive.
-                            const MAX_PENDING_RETIRED_CIDS: u64 = CidQueue::LEN as u64 * 10;
                             // We don't bother counting in-flight frames because those are bounded
                             // by congestion control.
                             if (pending_retired.len() as u64)
@@ -2989,10 +2989,16 @@ impl Connection {
                             // RETIRE_CONNECTION_ID might not have been previously sent if e.g. a
                             // range of connection IDs larger than the active connection ID limit
                             // was retired all at once via retire_prior_to.
-                            self.spaces[SpaceId::Data]
-                                .pending
-                                .retire_cids
-                                .push(frame.sequence);
+                            let pending_retired =
+                                &mut self.spaces[SpaceId::Data].pending.retire_cids;
+                            // A peer could otherwise grow `pending_retired` without bound by
+                            // repeatedly sending already-retired sequence numbers.
+                            if pending_retired.len() as u64 >= MAX_PENDING_RETIRED_CIDS {
+                                return Err(TransportError::CONNECTION_ID_LIMIT_ERROR(
+                                    "queued too many retired CIDs",
+                                ));
+                            }
+                            pending_retired.push(frame.sequence);
                             continue;
                         }
                     };
